@@ -275,10 +275,129 @@ func localFuncTargets(v ssa.Value) ([]*ssa.Function, bool) {
 		}
 		return false
 	}
+	if ts, ok := localTableTargets(v); ok {
+		return ts, true
+	}
 	if _, isPhi := v.(*ssa.Phi); !isPhi {
 		return nil, false
 	}
 	if !rec(v, 0) {
+		return nil, false
+	}
+	return out, true
+}
+
+// localTableTargets: v is a function value read from a table that is a local variable of the function (an array of rows
+// with a function field, or an array of functions, built in place and only read afterwards): every function stored into
+// that field / those elements. The variable must not be used for anything but indexing, field selection, loads and those
+// stores (its address does not travel).
+func localTableTargets(v ssa.Value) ([]*ssa.Function, bool) {
+	ld, ok := v.(*ssa.UnOp)
+	if !ok || ld.Op != token.MUL {
+		return nil, false
+	}
+	var field = -1
+	addr := ld.X
+	if fa, ok := addr.(*ssa.FieldAddr); ok {
+		field = fa.Field
+		addr = fa.X
+	}
+	ia, ok := addr.(*ssa.IndexAddr)
+	if !ok {
+		return nil, false
+	}
+	root, ok := ia.X.(*ssa.Alloc)
+	if !ok || root.Referrers() == nil {
+		return nil, false
+	}
+	var out []*ssa.Function
+	okAll := true
+	addFn := func(val ssa.Value) {
+		switch f := val.(type) {
+		case *ssa.Function:
+			out = append(out, f)
+		case *ssa.MakeClosure:
+			if fn, isFn := f.Fn.(*ssa.Function); isFn {
+				out = append(out, fn)
+			} else {
+				okAll = false
+			}
+		case *ssa.Const:
+			if f.Value != nil {
+				okAll = false
+			}
+		default:
+			okAll = false
+		}
+	}
+	var useOfElem func(e ssa.Value)
+	useOfElem = func(e ssa.Value) { // e: address of an element
+		if e.Referrers() == nil {
+			return
+		}
+		for _, r := range *e.Referrers() {
+			switch x := r.(type) {
+			case *ssa.DebugRef:
+			case *ssa.UnOp:
+				if x.Op != token.MUL {
+					okAll = false
+				}
+			case *ssa.Store:
+				if x.Addr != e {
+					okAll = false // the element's address is stored somewhere
+				} else if field < 0 {
+					addFn(x.Val)
+				} else {
+					okAll = false // a whole row assigned: not followed
+				}
+			case *ssa.FieldAddr:
+				if x.X != e {
+					okAll = false
+					continue
+				}
+				if x.Referrers() == nil {
+					continue
+				}
+				for _, rr := range *x.Referrers() {
+					switch y := rr.(type) {
+					case *ssa.DebugRef:
+					case *ssa.UnOp:
+						if y.Op != token.MUL {
+							okAll = false
+						}
+					case *ssa.Store:
+						if y.Addr != ssa.Value(x) {
+							okAll = false
+						} else if x.Field == field {
+							addFn(y.Val)
+						}
+					default:
+						okAll = false
+					}
+				}
+			default:
+				okAll = false
+			}
+		}
+	}
+	for _, r := range *root.Referrers() {
+		switch x := r.(type) {
+		case *ssa.DebugRef:
+		case *ssa.IndexAddr:
+			if x.X != ssa.Value(root) {
+				okAll = false
+				continue
+			}
+			useOfElem(x)
+		case *ssa.UnOp:
+			if x.Op != token.MUL {
+				okAll = false
+			}
+		default:
+			okAll = false
+		}
+	}
+	if !okAll || len(out) == 0 {
 		return nil, false
 	}
 	return out, true
